@@ -13,6 +13,7 @@ const int cg = 1; const int ca[2] = {1, 2}; const S cs = {1, {1, 2}}; const S cs
 CI tc = 1;
 typedef struct { const int a[2]; int bb; } MIX; MIX mix = {{1, 2}, 3};
 int m; int ma[2]; S ms; S msa[2]; MI tm; bool b; int i;
+const struct { int f; int h[2]; } cis = {1, {1, 2}}; struct { int f; int h[2]; } mis;
 const double cd = 1.0; const bool cbo = true; double md; bool mb;
 void wr(int &q) { q = 1; }
 """
@@ -22,7 +23,7 @@ TR = {"name": "TR", "params": "int &q", "locations": [{"id": "id0"}], "init": "i
 OPS = {"assign": "%s = 1", "addassign": "%s += 1", "subassign": "%s -= 1", "mulassign": "%s *= 1", "divassign": "%s /= 1",
        "modassign": "%s %%= 1", "andassign": "%s &= 1", "orassign": "%s |= 1", "xorassign": "%s ^= 1", "shlassign": "%s <<= 1",
        "shrassign": "%s >>= 1", "preinc": "++%s", "postinc": "%s++", "predec": "--%s", "postdec": "%s--", "funref": "wr(%s)"}
-WHERE = {"cd": "global", "cbo": "global", "md": "global", "mb": "global", "cg": "global", "ca": "global", "cs": "global", "csa": "global", "tc": "global", "cl": "flocal", "cp": "fparam", "cr": "fparam",
+WHERE = {"cis": "global", "mis": "global", "cd": "global", "cbo": "global", "md": "global", "mb": "global", "cg": "global", "ca": "global", "cs": "global", "csa": "global", "tc": "global", "cl": "flocal", "cp": "fparam", "cr": "fparam",
          "crs": "fparam", "mix": "global", "tp": "tparam", "tcr": "tparam", "ks": "select", "ki": "iter", "m": "global", "ma": "global", "ms": "global",
          "msa": "global", "tm": "global", "l": "flocal", "p": "fparam", "r": "fparam", "rs": "fparam", "tv": "tparam", "tr": "tparam",
          "oc1": "oldtparam", "oc2": "oldtparam", "oc3": "oldtparam", "om": "oldtparam"}
